@@ -218,10 +218,19 @@ _public_ int m_thpool_add(m_thpool_t *pool, m_thpool_task task, void *arg) {
 
     /* Add task to queue */
     thpool_task_t *new_task = memhook._calloc(1, sizeof(thpool_task_t));
-    new_task->fn = task;
-    new_task->arg = arg;
-    m_queue_enqueue(pool->tasks, new_task);
-    ret = pthread_cond_signal(&pool->notify);
+    if (new_task) {
+        new_task->fn = task;
+        new_task->arg = arg;
+        ret = m_queue_enqueue(pool->tasks, new_task);
+        if (ret == 0) {
+            ret = pthread_cond_signal(&pool->notify);
+        } else {
+            /* Task was not accepted */
+            memhook._free(new_task);
+        }
+    } else {
+        ret = -ENOMEM;
+    }
 
     const int unlock_ret = pthread_mutex_unlock(&pool->lock);
     if (unlock_ret == 0) {
